@@ -241,6 +241,17 @@ func init() {
 			th.par(caller, pos, a[0].(SliceV))
 			return nil
 		},
+		V + "FiredCount": func(th *Thread, _ *frame, _ token.Pos, _ *ssa.Function, a []Value) Value {
+			return th.R.TB.Int(64, int64(len(th.R.firedLog)))
+		},
+		V + "Settle": func(th *Thread, _ *frame, _ token.Pos, _ *ssa.Function, a []Value) Value {
+			// let every other runnable thread (background goroutines of the code under test) run
+			// until it blocks or finishes
+			if th.ID == 0 {
+				th.R.quiesce(th)
+			}
+			return nil
+		},
 		V + "PreemptBound": func(th *Thread, _ *frame, _ token.Pos, _ *ssa.Function, a []Value) Value {
 			th.R.preemptSet, th.R.preemptBound = true, th.R.concreteInt(a[0], "pre-emption bound")
 			return nil
